@@ -108,8 +108,12 @@ def end_to_end(out, by_enc, seed, n_docs):
                     endc = 3 + case["tab"][-1]["c"]
                     exp4 = [((1, endc), (1, endc))]
                     n += 1
-                    if got4 != exp4:
-                        bad = {"step": "eof (zero-width range at the end of a file that ends in a comment)", "expected": exp4, "got": got4, "text": text2}
+                    # (a server may choose to show the error on the character in front instead of a zero-width range: what is
+                    # demanded is that both ends are positions of the client's table, the end being the end of the text)
+                    cols = {3 + t["c"] for t in case["tab"]} | {0, 1, 2, 3}
+                    ok4 = got4 is not None and len(got4) == 1 and got4[0][1] == (1, endc) and got4[0][0][0] == 1 and got4[0][0][1] in cols and got4[0][0][1] <= endc
+                    if not ok4:
+                        bad = {"step": "eof (range at the end of a file that ends in a comment)", "expected": exp4, "got": got4, "text": text2}
                 if bad:
                     out.report({"what": "published ranges are not the token boundaries in the client's numbering", "level": "server", "encoding": sess.enc, "step": bad["step"].split(" ")[0]},
                                {"doc": case["doc"], "table": (seed + k) % len(TABLES), "offer": offer, "bad": bad, "e2e": True})
